@@ -1,4 +1,5 @@
 import LettreVerif.Model.Dkim
+import LettreVerif.Proofs.Headers
 import LettreVerif.Spec.DkimVerifier
 namespace LV.Dkim
 open LV LV.Headers
@@ -281,5 +282,921 @@ theorem stripTrailingCrlfs_crlf (x : Bytes) : stripTrailingCrlfs (x ++ CRLF) = s
 
 theorem relaxedBody_crlf (b : Bytes) : relaxedBody (b ++ CRLF) = relaxedBody b := by
   simp only [relaxedBody, reduceWsp_crlf b, stripTrailingCrlfs_crlf]
+
+/-! ## relaxed header canonicalization: the kernel against RFC 6376 §3.4.2, field by field -/
+
+
+/-- no CR and no LF at all -/
+def flat (u : Bytes) : Bool := u.all fun c => c != 13 && c != 10
+
+theorem relH_value_fold (c : Byte) (r : Bytes) (hc : DkimVerifier.isWsp c = true) :
+    relH .value (13 :: 10 :: c :: r) = relH .value (c :: r) := by
+  rw [relH]; simp [isWsp_eq, hc]
+
+theorem flat_tail {c : Byte} {l : Bytes} (h : flat (c :: l) = true) : flat l = true ∧ c ≠ 13 ∧ c ≠ 10 := by
+  simp [flat] at h ⊢
+  exact ⟨h.2, h.1.1, h.1.2⟩
+
+/-- what ends a field: CRLF followed by nothing or by an octet that is not SP / HTAB -/
+def endsField (next : Bytes) : Prop := ∀ d t, next = d :: t → DkimVerifier.isWsp d = false
+
+theorem relH_value_end (next : Bytes) (hn : endsField next) :
+    relH .value (13 :: 10 :: next) = 13 :: 10 :: relH .name next := by
+  cases next with
+  | nil => rw [relH]; simp [relH]
+  | cons d t =>
+    have := hn d t rfl
+    have h2 : Dkim.isWsp d = false := this
+    conv => lhs; rw [relH]
+    rw [if_neg (by simp [h2])]
+
+theorem relH_value_flat (u next : Bytes) (hu : flat u = true) (hn : endsField next) :
+    relH .value (u ++ 13 :: 10 :: next) = relaxedLine u ++ 13 :: 10 :: relH .name next := by
+  induction u with
+  | nil =>
+    simp [relaxedLine, stripTrailingWsp, compressWsp, relH_value_end next hn]
+  | cons c l ih =>
+    obtain ⟨hl', hc13, hc10⟩ := flat_tail hu
+    have ih := ih hl'
+    by_cases hc : DkimVerifier.isWsp c = true
+    · cases l with
+      | nil =>
+        simp only [List.nil_append, List.cons_append] at ih ⊢
+        rw [relH]
+        · simp only [isWsp_eq, hc, if_true]
+          simp [relaxedLine, hc, stripTrailingWsp, compressWsp] at ih ⊢
+          exact ih
+        all_goals (intros; simp_all)
+      | cons d l =>
+        obtain ⟨_, hd13, hd10⟩ := flat_tail hl'
+        simp only [List.cons_append] at ih ⊢
+        rw [relH]
+        · simp only [isWsp_eq, hc, if_true]
+          by_cases hd : DkimVerifier.isWsp d = true
+          · have : relaxedLine (c :: d :: l) = relaxedLine (d :: l) := by
+              simp only [relaxedLine]
+              rw [strip_cons c]
+              by_cases he : (stripTrailingWsp (d :: l)).isEmpty
+              · simp [hc, he]; simp at he; rw [he]
+              · simp [he]
+                rw [strip_cons d] at he ⊢
+                by_cases he2 : (stripTrailingWsp l).isEmpty
+                · simp [hd, he2] at he
+                · simp [hd, he2]
+                  exact compress_wsp_wsp _ _ _ hc hd
+            rw [this, ← ih]; simp [hd]
+          · have hd' : DkimVerifier.isWsp d = false := by simpa using hd
+            have : relaxedLine (c :: d :: l) = 32 :: relaxedLine (d :: l) := by
+              simp only [relaxedLine]
+              rw [strip_cons c, strip_head_nonwsp d l hd']
+              simp
+              exact compress_wsp_non _ _ _ hc hd'
+            rw [this, List.cons_append, ← ih]
+            have hcc : c = 32 ∨ c = 9 := by
+              simp [DkimVerifier.isWsp] at hc; exact hc
+            rcases hcc with rfl | rfl <;> simp [hd', hd13]
+        all_goals (intros; simp_all)
+    · have hc' : DkimVerifier.isWsp c = false := by simpa using hc
+      simp only [List.cons_append]
+      cases l with
+      | nil =>
+        simp only [List.nil_append] at ih ⊢
+        rw [relH]
+        · simp only [isWsp_eq, hc', Bool.false_eq_true, if_false]
+          simp only [relaxedLine] at ih ⊢
+          rw [strip_head_nonwsp c [] hc', compress_nonwsp _ _ hc']
+          simp [ih]
+        all_goals (intros; simp_all)
+      | cons d l =>
+        simp only [List.cons_append] at ih ⊢
+        rw [relH]
+        · simp only [isWsp_eq, hc', Bool.false_eq_true, if_false]
+          simp only [relaxedLine] at ih ⊢
+          rw [strip_head_nonwsp c (d :: l) hc', compress_nonwsp _ _ hc']
+          simp [ih]
+        all_goals (intros; simp_all)
+
+theorem unfold_cons_ne13 (e : Byte) (r : Bytes) (he : e ≠ 13) : HeaderReader.unfold (e :: r) = e :: HeaderReader.unfold r := by
+  rw [HeaderReader.unfold]
+  all_goals (intros; simp_all)
+
+theorem wf_cons_ne13 {e : Byte} {r : Bytes} (h : wfValue (e :: r) = true) (he : e ≠ 13) : e ≠ 10 ∧ wfValue r = true := by
+  by_cases h10 : e = 10
+  · subst h10; simp [wfValue] at h
+  · refine ⟨h10, ?_⟩
+    rw [wfValue] at h
+    · exact h
+    all_goals (intros; simp_all)
+
+theorem wf_13 {r : Bytes} (h : wfValue (13 :: r) = true) : ∃ c r', r = 10 :: c :: r' ∧ DkimVerifier.isWsp c = true ∧ wfValue (c :: r') = true := by
+  match r, h with
+  | 10 :: c :: r', h => simp [wfValue] at h; exact ⟨c, r', rfl, h.1, h.2⟩
+  | [], h => simp [wfValue] at h
+  | [x], h => simp [wfValue] at h
+  | x :: y :: r', h =>
+    by_cases hx : x = 10
+    · subst hx; simp [wfValue] at h; exact ⟨y, r', rfl, h.1, h.2⟩
+    · exfalso
+      rw [wfValue] at h
+      · cases h
+      all_goals (intros; simp_all)
+
+theorem wsp_ne13 {c : Byte} (h : DkimVerifier.isWsp c = true) : c ≠ 13 ∧ c ≠ 10 := by
+  simp [DkimVerifier.isWsp] at h
+  rcases h with rfl | rfl <;> decide
+
+/-- the first octet after a blank decides whether the blank stays: folded and unfolded text agree on it -/
+theorem head_unfold (r X : Bytes) (hr : wfValue r = true) (x : Bytes) (hX : X = 13 :: x) :
+    ∃ d t d' t', r ++ X = d :: t ∧ HeaderReader.unfold r ++ X = d' :: t' ∧
+      (DkimVerifier.isWsp d || d == 13) = (DkimVerifier.isWsp d' || d' == 13) ∧
+      ((DkimVerifier.isWsp d || d == 13) = false → d = d') := by
+  cases r with
+  | nil => subst hX; exact ⟨13, x, 13, x, rfl, by simp [HeaderReader.unfold], rfl, fun _ => rfl⟩
+  | cons e r' =>
+    by_cases he : e = 13
+    · subst he
+      obtain ⟨c, r'', rfl, hc, hw⟩ := wf_13 hr
+      have hc13 := (wsp_ne13 hc).1
+      refine ⟨13, 10 :: c :: r'' ++ X, c, HeaderReader.unfold r'' ++ X, rfl, ?_, ?_, ?_⟩
+      · rw [HeaderReader.unfold]
+        have : (c = 32 ∨ c = 9) := by simpa [DkimVerifier.isWsp] using hc
+        simp only [this, if_true]
+        rw [unfold_cons_ne13 c r'' hc13]; rfl
+      · simp [hc]
+      · simp
+    · refine ⟨e, r' ++ X, e, HeaderReader.unfold r' ++ X, rfl, ?_, rfl, fun _ => rfl⟩
+      rw [unfold_cons_ne13 e r' he]; rfl
+
+theorem relH_value_nonwsp (b d : Byte) (t : Bytes) (hb : DkimVerifier.isWsp b = false) (h13 : b ≠ 13) :
+    relH .value (b :: d :: t) = b :: relH .value (d :: t) := by
+  rw [relH]
+  · rw [if_neg (by simp [isWsp_eq, hb])]
+  all_goals (intros; simp_all)
+
+theorem relH_value_wsp (b d : Byte) (t : Bytes) (hb : DkimVerifier.isWsp b = true) :
+    relH .value (b :: d :: t) =
+      if DkimVerifier.isWsp d || d == 13 then relH .value (d :: t)
+      else (if b == 9 then 32 else b) :: relH .value (d :: t) := by
+  have h13 := (wsp_ne13 hb).1
+  rw [relH]
+  · rw [if_pos (by simp [isWsp_eq, hb])]
+    by_cases hd : (DkimVerifier.isWsp d || d == 13) = true
+    · simp only [isWsp_eq, hd, if_true]
+    · simp only [isWsp_eq, hd, Bool.false_eq_true, if_false]
+      by_cases h9 : b = 9 <;> simp [h9]
+  all_goals (intros; simp_all)
+
+theorem relH_value_unfold_aux (n : Nat) : ∀ (v x : Bytes), v.length ≤ n → wfValue v = true →
+    relH .value (v ++ 13 :: x) = relH .value (HeaderReader.unfold v ++ 13 :: x) := by
+  induction n with
+  | zero =>
+    intro v x hl _
+    have : v = [] := List.eq_nil_of_length_eq_zero (by omega)
+    subst this; simp [HeaderReader.unfold]
+  | succ n ih =>
+    intro v x hlen hv
+    cases v with
+    | nil => simp [HeaderReader.unfold]
+    | cons b r =>
+      simp only [List.length_cons] at hlen
+      by_cases hb13 : b = 13
+      · subst hb13
+        obtain ⟨c, r', rfl, hc, hw⟩ := wf_13 hv
+        have hcc : (c = 32 ∨ c = 9) := by simpa [DkimVerifier.isWsp] using hc
+        have e1 : HeaderReader.unfold (13 :: 10 :: c :: r') = HeaderReader.unfold (c :: r') := by
+          rw [HeaderReader.unfold]; simp [hcc]
+        rw [e1]
+        simp only [List.cons_append]
+        rw [relH_value_fold c _ hc]
+        have := ih (c :: r') x (by simp at hlen ⊢; omega) hw
+        simpa using this
+      · obtain ⟨hb10, hr⟩ := wf_cons_ne13 hv hb13
+        rw [unfold_cons_ne13 b r hb13]
+        have ihr := ih r x (by omega) hr
+        obtain ⟨d, t, d', t', e1, e2, e3, e4⟩ := head_unfold r (13 :: x) hr x rfl
+        simp only [List.cons_append]
+        rw [e1, e2]
+        rw [e1, e2] at ihr
+        by_cases hbw : DkimVerifier.isWsp b = true
+        · rw [relH_value_wsp b d t hbw, relH_value_wsp b d' t' hbw, ← e3]
+          by_cases hd : (DkimVerifier.isWsp d || d == 13) = true
+          · simp only [hd, if_true]; exact ihr
+          · simp only [hd, Bool.false_eq_true, if_false]; rw [ihr]
+        · have hbw' : DkimVerifier.isWsp b = false := by simpa using hbw
+          rw [relH_value_nonwsp b d t hbw' hb13, relH_value_nonwsp b d' t' hbw' hb13, ihr]
+
+/-- value mode does not see folds: it gives the same on the folded and on the unfolded text -/
+theorem relH_value_unfold (v x : Bytes) (hv : wfValue v = true) :
+    relH .value (v ++ 13 :: x) = relH .value (HeaderReader.unfold v ++ 13 :: x) :=
+  relH_value_unfold_aux v.length v x (Nat.le_refl _) hv
+
+theorem wf_unfold_flat_aux (n : Nat) : ∀ v : Bytes, v.length ≤ n → wfValue v = true → flat (HeaderReader.unfold v) = true := by
+  induction n with
+  | zero =>
+    intro v hl _
+    have : v = [] := List.eq_nil_of_length_eq_zero (by omega)
+    subst this; simp [HeaderReader.unfold, flat]
+  | succ n ih =>
+    intro v hlen hv
+    cases v with
+    | nil => simp [HeaderReader.unfold, flat]
+    | cons b r =>
+      simp only [List.length_cons] at hlen
+      by_cases hb13 : b = 13
+      · subst hb13
+        obtain ⟨c, r', rfl, hc, hw⟩ := wf_13 hv
+        have hcc : (c = 32 ∨ c = 9) := by simpa [DkimVerifier.isWsp] using hc
+        have e1 : HeaderReader.unfold (13 :: 10 :: c :: r') = HeaderReader.unfold (c :: r') := by
+          rw [HeaderReader.unfold]; simp [hcc]
+        rw [e1]
+        exact ih (c :: r') (by simp at hlen ⊢; omega) hw
+      · obtain ⟨hb10, hr⟩ := wf_cons_ne13 hv hb13
+        rw [unfold_cons_ne13 b r hb13]
+        have := ih r (by omega) hr
+        simp [flat] at this ⊢
+        exact ⟨⟨hb13, hb10⟩, this⟩
+
+theorem wf_unfold_flat (v : Bytes) (hv : wfValue v = true) : flat (HeaderReader.unfold v) = true :=
+  wf_unfold_flat_aux v.length v (Nat.le_refl _) hv
+
+/-- value mode on one folded value up to the CRLF that ends the field -/
+theorem relH_value_field (v next : Bytes) (hv : wfValue v = true) (hn : endsField next) :
+    relH .value (v ++ 13 :: 10 :: next) = relaxedLine (HeaderReader.unfold v) ++ 13 :: 10 :: relH .name next := by
+  rw [relH_value_unfold v (10 :: next) hv]
+  exact relH_value_flat _ next (wf_unfold_flat v hv) hn
+
+theorem relH_skip (v x : Bytes) (hv : wfValue v = true) :
+    relH .skip (v ++ 13 :: x) = relH .value (v.dropWhile DkimVerifier.isWsp ++ 13 :: x) := by
+  induction v with
+  | nil => simp only [List.nil_append, List.dropWhile_nil]; rw [relH]; simp [Dkim.isWsp]
+  | cons c r ih =>
+    simp only [List.cons_append]
+    rw [relH]
+    by_cases hc : DkimVerifier.isWsp c = true
+    · have hr := (wf_cons_ne13 hv (wsp_ne13 hc).1).2
+      simp only [isWsp_eq, hc, if_true, List.dropWhile_cons]
+      exact ih hr
+    · have hc' : DkimVerifier.isWsp c = false := by simpa using hc
+      simp [isWsp_eq, hc', List.dropWhile_cons]
+
+theorem relH_name (name rest : Bytes) (hn : ∀ c ∈ name, c ≠ 58) :
+    relH .name (name ++ 58 :: rest) = name ++ 58 :: relH .skip rest := by
+  induction name with
+  | nil => simp only [List.nil_append]; rw [relH]; simp
+  | cons c r ih =>
+    simp only [List.cons_append]
+    rw [relH]
+    have : c ≠ 58 := hn c (by simp)
+    simp [this, ih (fun x hx => hn x (by simp [hx]))]
+
+/-! ### the reader's side: the same value through unfold / compress / strip -/
+
+theorem compress_cons_wsp_head (a : Byte) (u : Bytes) (ha : DkimVerifier.isWsp a = true) :
+    (compressWsp (a :: u)).dropWhile DkimVerifier.isWsp = (compressWsp u).dropWhile DkimVerifier.isWsp := by
+  cases u with
+  | nil =>
+    have : (a = 32 ∨ a = 9) := by simpa [DkimVerifier.isWsp] using ha
+    simp [compressWsp, DkimVerifier.isWsp, this]
+  | cons b r =>
+    by_cases hb : DkimVerifier.isWsp b = true
+    · rw [compress_wsp_wsp a b r ha hb]
+    · have hb' : DkimVerifier.isWsp b = false := by simpa using hb
+      rw [compress_wsp_non a b r ha hb']
+      simp [DkimVerifier.isWsp]
+
+theorem compress_head_nonwsp (u : Bytes) (h : ∀ d t, u = d :: t → DkimVerifier.isWsp d = false) :
+    (compressWsp u).dropWhile DkimVerifier.isWsp = compressWsp u := by
+  cases u with
+  | nil => simp [compressWsp]
+  | cons d t =>
+    have hd := h d t rfl
+    rw [compress_nonwsp d t hd]
+    simp [hd]
+
+theorem dropWhile_compress (w u : Bytes) (hw : ∀ c ∈ w, DkimVerifier.isWsp c = true)
+    (hu : ∀ d t, u = d :: t → DkimVerifier.isWsp d = false) :
+    (compressWsp (w ++ u)).dropWhile DkimVerifier.isWsp = compressWsp u := by
+  induction w with
+  | nil => exact compress_head_nonwsp u hu
+  | cons a w ih =>
+    simp only [List.cons_append]
+    rw [compress_cons_wsp_head a _ (hw a (by simp))]
+    exact ih (fun c hc => hw c (by simp [hc]))
+
+theorem unfold_wsp_prefix (w v0 : Bytes) (hw : ∀ c ∈ w, DkimVerifier.isWsp c = true) :
+    HeaderReader.unfold (w ++ v0) = w ++ HeaderReader.unfold v0 := by
+  induction w with
+  | nil => rfl
+  | cons a w ih =>
+    simp only [List.cons_append]
+    rw [unfold_cons_ne13 a _ (wsp_ne13 (hw a (by simp))).1, ih (fun c hc => hw c (by simp [hc]))]
+
+theorem takeWhile_dropWhile_split (v : Bytes) :
+    v = v.takeWhile DkimVerifier.isWsp ++ v.dropWhile DkimVerifier.isWsp := (List.takeWhile_append_dropWhile).symm
+
+/-- trailing blanks can be deleted before or after the runs are reduced -/
+theorem strip_compress_comm (u : Bytes) : stripTrailingWsp (compressWsp u) = compressWsp (stripTrailingWsp u) := by
+  induction u with
+  | nil => simp [compressWsp, stripTrailingWsp]
+  | cons a u ih =>
+    by_cases ha : DkimVerifier.isWsp a = true
+    · cases u with
+      | nil =>
+        have : (a = 32 ∨ a = 9) := by simpa [DkimVerifier.isWsp] using ha
+        rcases this with rfl | rfl <;> decide
+      | cons b r =>
+        by_cases hb : DkimVerifier.isWsp b = true
+        · rw [compress_wsp_wsp a b r ha hb, ih, strip_cons a]
+          by_cases he : (stripTrailingWsp (b :: r)).isEmpty
+          · simp [ha, he]; simp at he; simp [he, compressWsp]
+          · simp only [he, Bool.and_false, Bool.false_eq_true, if_false]
+            rw [strip_cons b] at he ⊢
+            by_cases he2 : (stripTrailingWsp r).isEmpty
+            · simp [hb, he2] at he
+            · simp only [hb, he2, Bool.and_false, Bool.false_eq_true, if_false]
+              rw [compress_wsp_wsp a b _ ha hb]
+        · have hb' : DkimVerifier.isWsp b = false := by simpa using hb
+          rw [compress_wsp_non a b r ha hb', strip_cons a, strip_head_nonwsp b r hb']
+          simp only [List.isEmpty_cons, Bool.and_false, Bool.false_eq_true, if_false]
+          rw [compress_wsp_non a b _ ha hb']
+          have h32 : DkimVerifier.isWsp 32 = true := by decide
+          rw [strip_cons 32]
+          have : (stripTrailingWsp (compressWsp (b :: r))).isEmpty = false := by
+            rw [ih, strip_head_nonwsp b r hb', compress_nonwsp b _ hb']; rfl
+          simp only [this, Bool.and_false, Bool.false_eq_true, if_false]
+          rw [ih, strip_head_nonwsp b r hb']
+    · have ha' : DkimVerifier.isWsp a = false := by simpa using ha
+      rw [compress_nonwsp a u ha', strip_head_nonwsp a _ ha', ih, strip_head_nonwsp a u ha', compress_nonwsp a _ ha']
+
+theorem wf_dropWhile (v : Bytes) (hv : wfValue v = true) : wfValue (v.dropWhile DkimVerifier.isWsp) = true := by
+  induction v with
+  | nil => simpa using hv
+  | cons c r ih =>
+    by_cases hc : DkimVerifier.isWsp c = true
+    · simp only [List.dropWhile_cons, hc, if_true]
+      exact ih (wf_cons_ne13 hv (wsp_ne13 hc).1).2
+    · have hc' : DkimVerifier.isWsp c = false := by simpa using hc
+      simp only [List.dropWhile_cons, hc', Bool.false_eq_true, if_false]
+      exact hv
+
+theorem wf_cons_wsp (c : Byte) (v : Bytes) (hc : DkimVerifier.isWsp c = true) (hv : wfValue v = true) : wfValue (c :: v) = true := by
+  have h13 := (wsp_ne13 hc).1
+  have h10 := (wsp_ne13 hc).2
+  rw [wfValue]
+  · exact hv
+  all_goals (intros; simp_all)
+
+/-- a field as `Headers` prints it and lettre's encoder produces it -/
+structure WFField (h : Headers.HV) : Prop where
+  nameNoColon : ∀ c ∈ h.name, c ≠ 58
+  nameLower : h.name.map DkimVerifier.lower = h.name
+  nameNoTrailWsp : stripTrailingWsp h.name = h.name
+  nameStart : ∃ d t, h.name = d :: t ∧ DkimVerifier.isWsp d = false
+  valueWf : wfValue h.encoded = true
+  noLeadingFold : ∀ d t, h.encoded.dropWhile DkimVerifier.isWsp = d :: t → d ≠ 13
+
+def fld (h : Headers.HV) : Bytes := h.name ++ [58, 32] ++ h.encoded
+
+theorem mem_takeWhile_true {α : Type} (p : α → Bool) (l : List α) (x : α) (h : x ∈ l.takeWhile p) : p x = true := by
+  induction l with
+  | nil => simp at h
+  | cons a l ih =>
+    by_cases ha : p a = true
+    · simp [List.takeWhile_cons, ha] at h
+      rcases h with rfl | h
+      · exact ha
+      · exact ih h
+    · simp [List.takeWhile_cons, ha] at h
+
+theorem takeWhile_name (name rest : Bytes) (hn : ∀ c ∈ name, c ≠ 58) :
+    (name ++ 58 :: rest).takeWhile (· != 58) = name ∧ (name ++ 58 :: rest).dropWhile (· != 58) = 58 :: rest := by
+  induction name with
+  | nil => simp
+  | cons c r ih =>
+    have hc : c ≠ 58 := hn c (by simp)
+    have := ih (fun x hx => hn x (by simp [hx]))
+    simp [hc, this]
+
+theorem relaxedField_fld (h : Headers.HV) (hw : WFField h) :
+    relaxedField (fld h) = h.name ++ 58 :: relaxedLine (HeaderReader.unfold (h.encoded.dropWhile DkimVerifier.isWsp)) ++ CRLF := by
+  obtain ⟨t1, t2⟩ := takeWhile_name h.name (32 :: h.encoded) hw.nameNoColon
+  have hf : fld h = h.name ++ 58 :: 32 :: h.encoded := by simp [fld]
+  simp only [relaxedField, fieldName, fieldValue, hf, t1, t2, List.drop_one, List.tail_cons, hw.nameNoTrailWsp, hw.nameLower]
+  -- the value
+  have hsplit := takeWhile_dropWhile_split h.encoded
+  generalize hv0 : h.encoded.dropWhile DkimVerifier.isWsp = v0 at *
+  generalize hw0 : h.encoded.takeWhile DkimVerifier.isWsp = w0 at *
+  have hw0all : ∀ c ∈ (32 :: w0), DkimVerifier.isWsp c = true := by
+    intro c hc
+    simp at hc
+    rcases hc with rfl | hc
+    · decide
+    · rw [← hw0] at hc; exact mem_takeWhile_true _ _ _ hc
+  have e1 : HeaderReader.unfold (32 :: h.encoded) = (32 :: w0) ++ HeaderReader.unfold v0 := by
+    rw [hsplit]
+    exact unfold_wsp_prefix (32 :: w0) v0 hw0all
+  rw [e1]
+  have hhead : ∀ d t, HeaderReader.unfold v0 = d :: t → DkimVerifier.isWsp d = false := by
+    intro d t hdt
+    cases hv : v0 with
+    | nil => rw [hv] at hdt; simp [HeaderReader.unfold] at hdt
+    | cons e r =>
+      have he13 : e ≠ 13 := hw.noLeadingFold e r (hv0.trans hv)
+      rw [hv, unfold_cons_ne13 e r he13] at hdt
+      injection hdt with h1 _
+      subst h1
+      -- e is the first octet after the leading blanks
+      have : (h.encoded.dropWhile DkimVerifier.isWsp).head? = some e := by rw [hv0, hv]; rfl
+      have hne := List.head?_dropWhile_not DkimVerifier.isWsp h.encoded
+      rw [this] at hne
+      simpa using hne
+  rw [dropWhile_compress (32 :: w0) _ hw0all hhead, strip_compress_comm]
+  simp [relaxedLine, CRLF]
+
+theorem relH_field (h : Headers.HV) (hw : WFField h) (next : Bytes) (hn : endsField next) :
+    relH .name (fld h ++ 13 :: 10 :: next) = relaxedField (fld h) ++ relH .name next := by
+  have e : fld h ++ 13 :: 10 :: next = h.name ++ 58 :: ((32 :: h.encoded) ++ 13 :: (10 :: next)) := by simp [fld]
+  have hwf : wfValue (32 :: h.encoded) = true := wf_cons_wsp 32 _ (by decide) hw.valueWf
+  have hd : (32 :: h.encoded).dropWhile DkimVerifier.isWsp = h.encoded.dropWhile DkimVerifier.isWsp := by
+    simp [List.dropWhile_cons, DkimVerifier.isWsp]
+  rw [e, relH_name _ _ hw.nameNoColon, relH_skip _ _ hwf, hd,
+    relH_value_field _ next (wf_dropWhile _ hw.valueWf) hn, relaxedField_fld h hw]
+  simp [CRLF]
+
+theorem display_cons (h : Headers.HV) (hs : List Headers.HV) :
+    Headers.display (h :: hs) = fld h ++ 13 :: 10 :: Headers.display hs := by
+  simp [Headers.display, fld]
+
+theorem endsField_display (hs : List Headers.HV) (hw : ∀ h ∈ hs, WFField h) : endsField (Headers.display hs) := by
+  intro d t hdt
+  cases hs with
+  | nil => simp [Headers.display] at hdt
+  | cons h hs =>
+    obtain ⟨d0, t0, hn, hd0⟩ := (hw h (by simp)).nameStart
+    rw [display_cons, fld, hn] at hdt
+    simp at hdt
+    rw [← hdt.1]; exact hd0
+
+/-- **Relaxed header canonicalization, signer = reader.** On a header block as `Headers` prints it (lower-case names,
+    values folded the way the encoder folds them) the signer's transcription of
+    `dkim_canonicalize_headers_relaxed` gives, field by field, RFC 6376 §3.4.2. -/
+theorem relH_display (hs : List Headers.HV) (hw : ∀ h ∈ hs, WFField h) :
+    relH .name (Headers.display hs) = (hs.map fun h => relaxedField (fld h)).flatten := by
+  induction hs with
+  | nil => simp [Headers.display]; rw [relH]
+  | cons h hs ih =>
+    rw [display_cons, relH_field h (hw h (by simp)) _ (endsField_display hs (fun x hx => hw x (by simp [hx]))),
+      ih (fun x hx => hw x (by simp [hx]))]
+    simp
+
+
+/-! ## which fields are hashed: `insert_raw` de-duplication against RFC 6376 §5.4.2 selection -/
+
+section selection
+open Headers
+
+/-- the step of `dkim_canonicalize_headers` under relaxed canonicalization -/
+def stepR (mail : List HV) (cov : List HV) (n : Bytes) : List HV :=
+  match find mail n with
+  | some h => insertRaw cov ⟨lowerName n, h.raw, h.encoded⟩
+  | none => cov
+
+theorem covered_relaxed (names : List Bytes) (mail : List HV) :
+    covered ⟨true, true, true⟩ .relaxed names mail = names.foldl (stepR mail) [] := by
+  simp only [covered, tag]
+  rfl
+
+theorem lowerAscii_eq (b : Byte) : LV.lowerAscii b = Headers.lowerAscii b := by
+  unfold LV.lowerAscii Headers.lowerAscii
+  have : (65 ≤ b ∧ b ≤ 90) ↔ (65 ≤ b.toNat ∧ b.toNat ≤ 90) := by
+    constructor
+    · intro ⟨h1, h2⟩; exact ⟨UInt8.le_iff_toNat_le.mp h1, UInt8.le_iff_toNat_le.mp h2⟩
+    · intro ⟨h1, h2⟩; exact ⟨UInt8.le_iff_toNat_le.mpr h1, UInt8.le_iff_toNat_le.mpr h2⟩
+  by_cases h : 65 ≤ b.toNat ∧ b.toNat ≤ 90
+  · simp [h, this.mpr h]
+  · have h' : ¬ (65 ≤ b ∧ b ≤ 90) := fun hh => h (this.mp hh)
+    simp [h, h']
+
+theorem lowerName_eq (n : Bytes) : lowerName n = n.map Headers.lowerAscii := by
+  simp [lowerName, lowerAscii_eq]
+
+theorem eqName_iff (a b : Bytes) : eqName a b = true ↔ lowerName a = lowerName b := by
+  simp [eqName, lowerName_eq]
+
+theorem hLower_idem (b : Byte) : Headers.lowerAscii (Headers.lowerAscii b) = Headers.lowerAscii b := by
+  unfold Headers.lowerAscii
+  by_cases h : 65 ≤ b.toNat ∧ b.toNat ≤ 90
+  · simp only [h, and_self, if_true]
+    have e : (b + 32).toNat = b.toNat + 32 := by
+      rw [UInt8.toNat_add]; simp; omega
+    have : ¬ (65 ≤ (b + 32).toNat ∧ (b + 32).toNat ≤ 90) := by omega
+    rw [if_neg this]
+  · simp only [h, if_false]
+
+theorem lowerName_idem (n : Bytes) : lowerName (lowerName n) = lowerName n := by
+  simp [lowerName_eq, List.map_map, Function.comp_def, hLower_idem]
+
+theorem unique_eq (mail : List HV) (hu : Unique mail) (h g : HV) (hh : h ∈ mail) (hg : g ∈ mail)
+    (he : eqName h.name g.name = true) : h = g := by
+  induction mail with
+  | nil => simp at hh
+  | cons a l ih =>
+    obtain ⟨h1, h2⟩ := hu
+    simp at hh hg
+    rcases hh with rfl | hh <;> rcases hg with rfl | hg
+    · rfl
+    · have := h1 g hg; rw [he] at this; cases this
+    · have := h1 h hh; rw [eqName_symm, he] at this; cases this
+    · exact ih h2 hh hg
+
+theorem find_some {mail : List HV} {n : Bytes} {h : HV} (hf : find mail n = some h) : h ∈ mail ∧ eqName n h.name = true := by
+  unfold find at hf
+  exact ⟨List.mem_of_find?_eq_some hf, by simpa using List.find?_some hf⟩
+
+theorem find_none {mail : List HV} {n : Bytes} (hf : find mail n = none) : ∀ h ∈ mail, eqName n h.name = false := by
+  unfold find at hf
+  intro h hh
+  have := List.find?_eq_none.mp hf h hh
+  simpa using this
+
+theorem replaceFirst_same (e : HV) (cov : List HV) (h : ∀ e' ∈ cov, eqName e.name e'.name = true → e' = e) :
+    replaceFirst e cov = cov := by
+  induction cov with
+  | nil => rfl
+  | cons a l ih =>
+    simp only [replaceFirst]
+    by_cases ha : eqName e.name a.name = true
+    · simp only [ha, if_true]; rw [h a (by simp) ha]
+    · simp only [ha, Bool.false_eq_true, if_false]
+      rw [ih (fun e' he' => h e' (by simp [he']))]
+
+/-- names as the reader needs them: no colon, nothing to strip -/
+structure NameOk (h : HV) : Prop where
+  noColon : ∀ c ∈ h.name, c ≠ 58
+  noTrail : stripTrailingWsp h.name = h.name
+
+theorem fieldName_fld (h : HV) (hn : NameOk h) : fieldName (fld h) = h.name := by
+  unfold fieldName fld
+  have : ∀ (name rest : Bytes), (∀ c ∈ name, c ≠ 58) → (name ++ 58 :: rest).takeWhile (· != 58) = name := by
+    intro name rest hc
+    induction name with
+    | nil => simp
+    | cons c r ih =>
+      have : c ≠ 58 := hc c (by simp)
+      simp [this, ih (fun x hx => hc x (by simp [hx]))]
+  simpa using this h.name (32 :: h.encoded) hn.noColon
+
+theorem lower_eq (b : Byte) : DkimVerifier.lower b = Headers.lowerAscii b := rfl
+
+theorem nameIs_fld (n : Bytes) (h : HV) (hn : NameOk h) : nameIs n (fld h) = eqName h.name n := by
+  unfold nameIs
+  rw [fieldName_fld h hn, hn.noTrail]
+  have : DkimVerifier.lower = Headers.lowerAscii := funext lower_eq
+  simp only [this, eqName]
+
+def covKey (cov : List HV) (h : HV) : Bool := cov.any fun e => eqName e.name h.name
+
+/-- the relation between the signer's `covered_headers` and the reader's bookkeeping while both go through `h=` -/
+structure Sim (mail cov : List HV) (avail : List Bytes) (acc : List Bytes) (rf : Bytes → Bytes) : Prop where
+  fromMail : ∀ e ∈ cov, ∃ h ∈ mail, e = ⟨lowerName h.name, h.raw, h.encoded⟩
+  avail_eq : avail = ((mail.reverse.filter fun h => !covKey cov h).map fld)
+  acc_eq : acc.reverse.map rf = cov.map fun e => rf (fld e)
+
+theorem covKey_of_mem (mail cov : List HV) (hu : Unique mail) (hfm : ∀ e ∈ cov, ∃ h ∈ mail, e = ⟨lowerName h.name, h.raw, h.encoded⟩)
+    (h : HV) (hh : h ∈ mail) (hk : covKey cov h = true) : (⟨lowerName h.name, h.raw, h.encoded⟩ : HV) ∈ cov := by
+  unfold covKey at hk
+  rw [List.any_eq_true] at hk
+  obtain ⟨e, he, hee⟩ := hk
+  obtain ⟨h', hh', rfl⟩ := hfm e he
+  have : eqName h'.name h.name = true := by
+    rw [eqName_iff] at hee ⊢
+    simpa [lowerName_idem] using hee
+  have := unique_eq mail hu h' h hh' hh this
+  subst this
+  exact he
+
+theorem eqName_lower_left (a b : Bytes) : eqName (lowerName a) b = eqName a b := by
+  have h1 := eqName_iff (lowerName a) b
+  have h2 := eqName_iff a b
+  rw [lowerName_idem] at h1
+  cases hx : eqName (lowerName a) b <;> cases hy : eqName a b <;> simp_all
+
+theorem unique_nodup (mail : List HV) (hu : Unique mail) : mail.Nodup := by
+  induction mail with
+  | nil => exact List.nodup_nil
+  | cons a l ih =>
+    obtain ⟨h1, h2⟩ := hu
+    refine List.nodup_cons.mpr ⟨?_, ih h2⟩
+    intro ha
+    have := h1 a ha
+    rw [eqName_refl] at this
+    cases this
+
+theorem fld_inj (mail : List HV) (hu : Unique mail) (hok : ∀ h ∈ mail, NameOk h) (g h : HV) (hg : g ∈ mail) (hh : h ∈ mail)
+    (he : fld g = fld h) : g = h := by
+  have := congrArg fieldName he
+  rw [fieldName_fld g (hok g hg), fieldName_fld h (hok h hh)] at this
+  exact unique_eq mail hu g h hg hh (by rw [this]; exact eqName_refl _)
+
+theorem erase_map_fld (L : List HV) (h : HV) (hn : L.Nodup) (hinj : ∀ g ∈ L, fld g = fld h → g = h) :
+    (L.map fld).erase (fld h) = (L.filter fun g => g != h).map fld := by
+  induction L with
+  | nil => rfl
+  | cons a l ih =>
+    obtain ⟨ha, hl⟩ := List.nodup_cons.mp hn
+    by_cases hah : a = h
+    · subst hah
+      simp only [List.map_cons, List.erase_cons_head, List.filter_cons, bne_self_eq_false, Bool.false_eq_true, if_false]
+      have : l.filter (fun g => g != a) = l := by
+        apply List.filter_eq_self.mpr
+        intro g hg
+        simp
+        intro hga; subst hga; exact ha hg
+      rw [this]
+    · have hne : fld a ≠ fld h := fun he => hah (hinj a (by simp) he)
+      simp only [List.map_cons, List.filter_cons]
+      rw [List.erase_cons_tail (by simpa using hne)]
+      have : (a != h) = true := by simpa using hah
+      simp only [this, if_true, List.map_cons]
+      rw [ih hl (fun g hg => hinj g (by simp [hg]))]
+
+theorem any_key (cov : List HV) (h : HV) :
+    (cov.any fun g => eqName (lowerName h.name) g.name) = covKey cov h := by
+  unfold covKey
+  congr 1
+  funext g
+  rw [eqName_lower_left, eqName_symm]
+
+theorem mem_avail {mail cov : List HV} {f : Bytes} (hf : f ∈ ((mail.reverse.filter fun h => !covKey cov h).map fld)) :
+    ∃ g ∈ mail, covKey cov g = false ∧ f = fld g := by
+  simp only [List.mem_map, List.mem_filter, List.mem_reverse] at hf
+  obtain ⟨g, ⟨hg, hk⟩, rfl⟩ := hf
+  exact ⟨g, hg, by simpa using hk, rfl⟩
+
+theorem sim_run (mail : List HV) (hu : Unique mail) (hok : ∀ h ∈ mail, NameOk h) (rf : Bytes → Bytes)
+    (hrf : ∀ h ∈ mail, rf (fld ⟨lowerName h.name, h.raw, h.encoded⟩) = rf (fld h)) :
+    ∀ (names : List Bytes) (cov : List HV) (avail acc : List Bytes), Sim mail cov avail acc rf →
+      (selectGo names avail acc).map rf = (names.foldl (stepR mail) cov).map fun e => rf (fld e) := by
+  intro names
+  induction names with
+  | nil =>
+    intro cov avail acc hs
+    simpa [selectGo] using hs.acc_eq
+  | cons n ns ih =>
+    intro cov avail acc hs
+    simp only [selectGo, List.foldl_cons]
+    cases hf : find mail n with
+    | none =>
+      have hnone : avail.find? (nameIs n) = none := by
+        apply List.find?_eq_none.mpr
+        intro f hfm
+        rw [hs.avail_eq] at hfm
+        obtain ⟨g, hg, _, rfl⟩ := mem_avail hfm
+        rw [nameIs_fld n g (hok g hg), eqName_symm]
+        simp [find_none hf g hg]
+      simp only [hnone, stepR, hf]
+      exact ih cov avail acc hs
+    | some h =>
+      obtain ⟨hh, hen⟩ := find_some hf
+      have hln : lowerName n = lowerName h.name := (eqName_iff n h.name).mp hen
+      have hstep : stepR mail cov n = insertRaw cov ⟨lowerName h.name, h.raw, h.encoded⟩ := by
+        simp only [stepR, hf, hln]
+      rw [hstep]
+      simp only [insertRaw, any_key]
+      by_cases hk : covKey cov h = true
+      · -- already covered: nothing changes on either side
+        simp only [hk, if_true]
+        have hmem := covKey_of_mem mail cov hu hs.fromMail h hh hk
+        have hsame : replaceFirst ⟨lowerName h.name, h.raw, h.encoded⟩ cov = cov := by
+          apply replaceFirst_same
+          intro e' he' hee
+          obtain ⟨h', hh', rfl⟩ := hs.fromMail e' he'
+          have : eqName h.name h'.name = true := by
+            simp only at hee
+            rw [eqName_lower_left] at hee
+            rw [eqName_symm, eqName_lower_left, eqName_symm] at hee
+            exact hee
+          have := unique_eq mail hu h h' hh hh' this
+          subst this; rfl
+        rw [hsame]
+        have hnone : avail.find? (nameIs n) = none := by
+          apply List.find?_eq_none.mpr
+          intro f hfm
+          rw [hs.avail_eq] at hfm
+          obtain ⟨g, hg, hkg, rfl⟩ := mem_avail hfm
+          rw [nameIs_fld n g (hok g hg)]
+          intro hgn
+          have hgn' : eqName g.name n = true := by simpa using hgn
+          have : eqName g.name h.name = true := eqName_trans _ _ _ hgn' hen
+          have := unique_eq mail hu g h hg hh this
+          subst this
+          rw [hk] at hkg; cases hkg
+        simp only [hnone]
+        exact ih cov avail acc hs
+      · -- first time: the signer appends, the reader takes the one field with that name
+        have hk' : covKey cov h = false := by simpa using hk
+        simp only [hk', Bool.false_eq_true, if_false]
+        have hin : fld h ∈ avail := by
+          rw [hs.avail_eq]
+          simp only [List.mem_map, List.mem_filter, List.mem_reverse]
+          exact ⟨h, ⟨hh, by simp [hk']⟩, rfl⟩
+        have hfind : avail.find? (nameIs n) = some (fld h) := by
+          cases hx : avail.find? (nameIs n) with
+          | none =>
+            have := List.find?_eq_none.mp hx (fld h) hin
+            rw [nameIs_fld n h (hok h hh), eqName_symm, hen] at this
+            simp at this
+          | some f =>
+            have hfm := List.mem_of_find?_eq_some hx
+            have hp := List.find?_some hx
+            rw [hs.avail_eq] at hfm
+            obtain ⟨g, hg, _, rfl⟩ := mem_avail hfm
+            rw [nameIs_fld n g (hok g hg)] at hp
+            have : eqName g.name h.name = true := eqName_trans _ _ _ hp hen
+            have := unique_eq mail hu g h hg hh this
+            subst this; rfl
+        simp only [hfind]
+        apply ih
+        refine ⟨?_, ?_, ?_⟩
+        · intro e he
+          simp at he
+          rcases he with he | rfl
+          · exact hs.fromMail e he
+          · exact ⟨h, hh, rfl⟩
+        · rw [hs.avail_eq]
+          have hnd : (mail.reverse.filter fun g => !covKey cov g).Nodup :=
+            List.Nodup.sublist List.filter_sublist ((List.reverse_perm mail).symm.nodup (unique_nodup mail hu))
+          rw [erase_map_fld _ h hnd (fun g hg he => fld_inj mail hu hok g h (by
+            simp only [List.mem_filter, List.mem_reverse] at hg; exact hg.1) hh he)]
+          congr 1
+          rw [List.filter_filter]
+          apply List.filter_congr
+          intro g hg
+          have hg' : g ∈ mail := by simpa using hg
+          have : covKey (cov ++ [⟨lowerName h.name, h.raw, h.encoded⟩]) g = (covKey cov g || eqName h.name g.name) := by
+            simp [covKey, eqName_lower_left]
+          rw [this]
+          by_cases hgh : g = h
+          · subst hgh; simp [eqName_refl]
+          · have : eqName h.name g.name = false := by
+              cases hx : eqName h.name g.name with
+              | false => rfl
+              | true => exact absurd (unique_eq mail hu h g hh hg' hx).symm hgh
+            simp [this, hgh]
+        · simp only [List.reverse_cons, List.map_append, List.map_cons, List.map_nil]
+          rw [hs.acc_eq, hrf h hh]
+
+theorem isWsp_lower (c : Byte) : DkimVerifier.isWsp (Headers.lowerAscii c) = DkimVerifier.isWsp c := by
+  unfold Headers.lowerAscii
+  by_cases h : 65 ≤ c.toNat ∧ c.toNat ≤ 90
+  · simp only [h, and_self, if_true]
+    have e : (c + 32).toNat = c.toNat + 32 := by rw [UInt8.toNat_add]; simp; omega
+    have h1 : DkimVerifier.isWsp (c + 32) = false := by
+      simp only [DkimVerifier.isWsp, Bool.or_eq_false_iff, beq_eq_false_iff_ne, ne_eq]
+      constructor <;> (intro hh; have := congrArg UInt8.toNat hh; simp [e] at this <;> omega)
+    have h2 : DkimVerifier.isWsp c = false := by
+      simp only [DkimVerifier.isWsp, Bool.or_eq_false_iff, beq_eq_false_iff_ne, ne_eq]
+      constructor <;> (intro hh; have := congrArg UInt8.toNat hh; simp at this; omega)
+    rw [h1, h2]
+  · simp only [h, if_false]
+
+theorem dropWhile_map_lower (l : Bytes) :
+    (l.map Headers.lowerAscii).dropWhile DkimVerifier.isWsp = (l.dropWhile DkimVerifier.isWsp).map Headers.lowerAscii := by
+  induction l with
+  | nil => rfl
+  | cons a l ih => simp only [List.map_cons, List.dropWhile_cons, isWsp_lower]; split <;> simp [ih]
+
+theorem strip_lower (n : Bytes) : stripTrailingWsp (lowerName n) = lowerName (stripTrailingWsp n) := by
+  simp only [stripTrailingWsp, lowerName_eq, ← List.map_reverse, dropWhile_map_lower]
+
+theorem lower_noColon (n : Bytes) (h : ∀ c ∈ n, c ≠ 58) : ∀ c ∈ lowerName n, c ≠ 58 := by
+  intro c hc
+  rw [lowerName_eq] at hc
+  simp only [List.mem_map] at hc
+  obtain ⟨a, ha, rfl⟩ := hc
+  have hne := h a ha
+  unfold Headers.lowerAscii
+  by_cases hh : 65 ≤ a.toNat ∧ a.toNat ≤ 90
+  · simp only [hh, and_self, if_true]
+    intro h58
+    have e : (a + 32).toNat = a.toNat + 32 := by rw [UInt8.toNat_add]; simp; omega
+    have := congrArg UInt8.toNat h58
+    simp [e] at this; omega
+  · simp only [hh, if_false]; exact hne
+
+theorem nameOk_lower (h : HV) (hn : NameOk h) : NameOk ⟨lowerName h.name, h.raw, h.encoded⟩ :=
+  ⟨lower_noColon h.name hn.noColon, by simp only; rw [strip_lower, hn.noTrail]⟩
+
+theorem fieldValue_fld (h : HV) (hn : NameOk h) : fieldValue (fld h) = 32 :: h.encoded := by
+  unfold fieldValue fld
+  have : ∀ (name rest : Bytes), (∀ c ∈ name, c ≠ 58) → (name ++ 58 :: rest).dropWhile (· != 58) = 58 :: rest := by
+    intro name rest hc
+    induction name with
+    | nil => simp
+    | cons c r ih =>
+      have : c ≠ 58 := hc c (by simp)
+      simp [this, ih (fun x hx => hc x (by simp [hx]))]
+  have e : h.name ++ [58, 32] ++ h.encoded = h.name ++ 58 :: (32 :: h.encoded) := by simp
+  rw [e, this h.name _ hn.noColon]; rfl
+
+theorem relaxedField_rename (h : HV) (hn : NameOk h) :
+    relaxedField (fld ⟨lowerName h.name, h.raw, h.encoded⟩) = relaxedField (fld h) := by
+  have hn' := nameOk_lower h hn
+  simp only [relaxedField, fieldName_fld _ hn', fieldName_fld h hn, fieldValue_fld _ hn', fieldValue_fld h hn, hn.noTrail, hn'.noTrail]
+  have : DkimVerifier.lower = Headers.lowerAscii := funext lower_eq
+  simp only [this, ← lowerName_eq, lowerName_idem]
+
+/-- **Which fields are hashed.** For a header map without repeated names, the signer's covered fields
+    (`insert_raw` de-duplication, any letter case in `h=`, absent names, repeated names) are, in canonical form and in
+    order, the fields an RFC 6376 §5.4.2 reader selects for the same `h=` list. -/
+theorem covered_select_relaxed (names : List Bytes) (mail : List HV) (hu : Unique mail) (hok : ∀ h ∈ mail, NameOk h) :
+    (covered ⟨true, true, true⟩ .relaxed names mail).map (fun e => relaxedField (fld e)) =
+      (select names (mail.map fld)).map relaxedField := by
+  rw [covered_relaxed]
+  unfold select
+  symm
+  apply sim_run mail hu hok relaxedField (fun h hh => relaxedField_rename h (hok h hh))
+  refine ⟨by simp, ?_, by simp⟩
+  simp only [covKey, List.any_nil, Bool.not_false]
+  rw [List.filter_eq_self.mpr (fun _ _ => rfl), List.map_reverse]
+
+
+theorem mem_replaceFirst (v : HV) (l : List HV) (x : HV) (h : x ∈ replaceFirst v l) : x ∈ l ∨ x = v := by
+  induction l with
+  | nil => simp [replaceFirst] at h
+  | cons a l ih =>
+    simp only [replaceFirst] at h
+    split at h
+    · simp at h; rcases h with rfl | h
+      · exact Or.inr rfl
+      · exact Or.inl (by simp [h])
+    · simp at h; rcases h with rfl | h
+      · exact Or.inl (by simp)
+      · rcases ih h with h | h
+        · exact Or.inl (by simp [h])
+        · exact Or.inr h
+
+theorem mem_insertRaw (l : List HV) (v x : HV) (h : x ∈ insertRaw l v) : x ∈ l ∨ x = v := by
+  unfold insertRaw at h
+  split at h
+  · exact mem_replaceFirst v l x h
+  · simp at h; exact h
+
+theorem covered_from_mail (mail : List HV) (names : List Bytes) (cov : List HV)
+    (hc : ∀ e ∈ cov, ∃ h ∈ mail, e = ⟨lowerName h.name, h.raw, h.encoded⟩) :
+    ∀ e ∈ names.foldl (stepR mail) cov, ∃ h ∈ mail, e = ⟨lowerName h.name, h.raw, h.encoded⟩ := by
+  induction names generalizing cov with
+  | nil => simpa using hc
+  | cons n ns ih =>
+    simp only [List.foldl_cons]
+    apply ih
+    intro e he
+    unfold stepR at he
+    cases hf : find mail n with
+    | none => rw [hf] at he; exact hc e he
+    | some h =>
+      rw [hf] at he
+      obtain ⟨hh, hen⟩ := find_some hf
+      rcases mem_insertRaw _ _ _ he with he | rfl
+      · exact hc e he
+      · exact ⟨h, hh, by rw [(eqName_iff n h.name).mp hen]⟩
+
+/-- a field of the message as the theorems need it (the name in any letter case) -/
+structure WFMailField (h : HV) : Prop where
+  nameNoColon : ∀ c ∈ h.name, c ≠ 58
+  nameNoTrailWsp : stripTrailingWsp h.name = h.name
+  nameStart : ∃ d t, h.name = d :: t ∧ DkimVerifier.isWsp d = false
+  valueWf : wfValue h.encoded = true
+  noLeadingFold : ∀ d t, h.encoded.dropWhile DkimVerifier.isWsp = d :: t → d ≠ 13
+
+theorem wfField_of_mail (h : HV) (hw : WFMailField h) : WFField ⟨lowerName h.name, h.raw, h.encoded⟩ := by
+  have hn : NameOk h := ⟨hw.nameNoColon, hw.nameNoTrailWsp⟩
+  refine ⟨lower_noColon h.name hw.nameNoColon, ?_, (nameOk_lower h hn).noTrail, ?_, hw.valueWf, hw.noLeadingFold⟩
+  · have : DkimVerifier.lower = Headers.lowerAscii := funext lower_eq
+    simp only [this, ← lowerName_eq, lowerName_idem]
+  · obtain ⟨d, t, hdt, hd⟩ := hw.nameStart
+    refine ⟨Headers.lowerAscii d, t.map Headers.lowerAscii, ?_, ?_⟩
+    · simp only [lowerName_eq, hdt, List.map_cons]
+    · rw [isWsp_lower]; exact hd
+
+/-- **The signed-fields half of the header hash input (relaxed).** For a header map without repeated names whose
+    fields are in the shape lettre emits, and for every `h=` list (any letter case, absent names, repeated names):
+    what the signer hashes for the covered fields is the concatenation of the RFC 6376 canonical forms of exactly the
+    fields an RFC 6376 §5.4.2 reader selects from the message. -/
+theorem signed_fields_input_agrees (names : List Bytes) (mail : List HV) (hu : Unique mail)
+    (hw : ∀ h ∈ mail, WFMailField h) :
+    canonHeaders ⟨true, true, true⟩ .relaxed names mail =
+      ((select names (mail.map fld)).map relaxedField).flatten := by
+  have hok : ∀ h ∈ mail, NameOk h := fun h hh => ⟨(hw h hh).nameNoColon, (hw h hh).nameNoTrailWsp⟩
+  unfold canonHeaders
+  simp only []
+  have hcov := covered_from_mail mail names [] (by simp)
+  rw [← covered_relaxed] at hcov
+  rw [relH_display _ (fun e he => by
+    obtain ⟨h, hh, rfl⟩ := hcov e he
+    exact wfField_of_mail h (hw h hh))]
+  rw [covered_select_relaxed names mail hu hok]
+
+end selection
 
 end LV.Dkim
